@@ -97,6 +97,16 @@ theorem np_andThen {α β : Type} {p : P α} {f : α → P β} (hp : NP p) (hf :
   | err => simp
   | panic => exact absurd h (hp i)
 
+/-- `np_andThen` where the continuation is only known not to panic on results of `p` -/
+theorem np_andThen_of {α β : Type} {p : P α} {f : α → P β} (hp : NP p)
+    (hf : ∀ i a r, p i = .ok a r → f a r ≠ .panic) : NP (andThen p f) := by
+  intro i
+  unfold andThen
+  cases h : p i with
+  | ok a r => exact hf i a r h
+  | err => simp
+  | panic => exact absurd h (hp i)
+
 theorem np_alt {α : Type} {p q : P α} (hp : NP p) (hq : NP q) : NP (alt p q) := by
   intro i
   unfold alt
@@ -244,6 +254,13 @@ theorem opt_some {α : Type} {p : P α} {i : Bytes} {a : α} {r : Bytes} (h : p 
 
 theorem opt_none {α : Type} {p : P α} {i : Bytes} (h : p i = .err) : opt p i = .ok none i := by
   unfold opt; rw [h]
+
+theorem peek_eq {α : Type} {p : P α} {i : Bytes} {a : α} {r : Bytes} (h : p i = .ok a r) :
+    peek p i = .ok a i := by
+  unfold peek; rw [h]
+
+theorem peek_err {α : Type} {p : P α} {i : Bytes} (h : p i = .err) : peek p i = .err := by
+  unfold peek; rw [h]
 
 theorem peek_ok {α : Type} {p : P α} {i : Bytes} {a : α} {r : Bytes} (h : peek p i = .ok a r) :
     r = i ∧ ∃ r', p i = .ok a r' := by
